@@ -314,6 +314,7 @@ theorem evalPy_sound (tbl : List (Name × Dunder)) (htbl : TableOK tbl) :
     · simp [evalPy, hvs, bind, Except.bind, asStream, pure, Except.pure]
     · have gs : ∀ i, its.get i = s.at i := hms.get
       simp only [Val.get, Iter.get, Py.at, gs]
+      rfl
     · have ls : its.len = s.len := hms.len
       simp only [Val.len, Iter.len, Py.len, ls]
   | append s o ihs iho =>
